@@ -45,6 +45,8 @@ class Model:
     """
 
     def __init__(self, ops, nodes, edges, edge_tpls=None, inputs=None):
+        # inputs: {input variable path: [callable(t) -> value]} extrinsic inputs (added to the other sources)
+        self.ext = {k: list(v) for k, v in (inputs or {}).items()}
         self.ops = ops
         self.nodes = nodes
         self.edges = [tuple(e) for e in edges]
@@ -148,7 +150,7 @@ class Model:
         return d
 
     # ------------------------------------------------------------------ evaluation
-    def field(self, S, P=None, t=0.0, weights=None, hist=None, funcs=None):
+    def field(self, S, P=None, t=0.0, weights=None, hist=None, funcs=None, delayed=None):
         """derivatives {state path: value} and all variable values, at state dict S, constants P"""
         P = dict(self.p0(), **(P or {}))
         memo = {}
@@ -171,7 +173,7 @@ class Model:
                 scope, rhs = self.rhs[p]
                 v = self._eval(scope, rhs, value, t, hist, funcs)
             else:  # input
-                v = self._input(p, value, weights)
+                v = self._input(p, value, weights, t, delayed)
             busy.discard(p)
             memo[p] = v
             return v
@@ -210,17 +212,24 @@ class Model:
                 intra.append(f'{node}/{o}/{var}')
         return intra, self.edge_src.get(p, [])
 
-    def _input(self, p, value, weights=None):
+    def _input(self, p, value, weights=None, t=0.0, delayed=None):
         intra, edges = self.sources_of(p)
-        if not intra and not edges:
+        ext = self.ext.get(p, [])
+        if not intra and not edges and not ext:
             return self.init[p]
         tot = 0.0
+        for f in ext:
+            tot = tot + f(t)
         for s in intra:
             tot = tot + value(s)
         for i, (w, s, attrs) in enumerate(edges):
             if weights is not None and (p, i) in weights:
                 w = weights[(p, i)]
-            tot = tot + w * value(s)
+            D = attrs.get('_delay_steps') if attrs else None
+            if D and delayed is not None:
+                tot = tot + w * delayed(s, D)
+            else:
+                tot = tot + w * value(s)
         return tot
 
 
